@@ -31,19 +31,20 @@ TESTS = {
     "C19": "test_size_limits.py test_find_design_near_square.py",
     "C20": "test_find_design_near_square_2.py test_size_limits.py",
 }
-for sid in [a for a in sys.argv[1:] if not a.startswith("--")]:
-    wt = f"/tmp/wt_{sid}"
+for arg in [a for a in sys.argv[1:] if not a.startswith("--")]:
+    sid, _, wt = arg.partition("=")
+    wt = wt or f"/tmp/wt_{sid}"
     meta_p = os.path.join(VERIF, "seeded", sid, "meta.json")
     meta = json.load(open(meta_p))
     full = "--full" in sys.argv
-    files = "ghedesigner/tests" if full else " ".join(T + f for f in TESTS[sid].split())
+    files = "ghedesigner/tests" if full else " ".join(T + f for f in TESTS[sid[:3]].split())
     env = dict(os.environ, OMP_NUM_THREADS="1", OPENBLAS_NUM_THREADS="1", PYTHONPATH=wt)
     st = subprocess.run("git status --short ghedesigner", shell=True, cwd=wt, capture_output=True, text=True).stdout.strip()
     t0 = time.time()
     p = subprocess.run(f"/venv/bin/python -m pytest -q -p no:cacheprovider -o addopts= --timeout=1800 -n {10 if full else 4} {files}", shell=True, cwd=wt, capture_output=True, text=True, env=env)
     tail = (p.stdout + p.stderr).strip().splitlines()[-1:]
-    meta["repo_tests_run_by_me"] = {"worktree_state": st, "files": ["ghedesigner/tests (whole suite)"] if full else TESTS[sid].split(), "exit": p.returncode, "summary": tail, "wall_s": round(time.time() - t0)}
+    meta["repo_tests_run_by_me"] = {"worktree_state": st, "files": ["ghedesigner/tests (whole suite)"] if full else TESTS[sid[:3]].split(), "exit": p.returncode, "summary": tail, "wall_s": round(time.time() - t0)}
     if "repo tests" not in " ".join(meta.get("ran", [])):
-        meta.setdefault("ran", []).append(f"repo tests in the worktree with the change: pytest {'-n 10 ghedesigner/tests (whole suite, 61 tests)' if full else '-n 4 ' + TESTS[sid]}")
+        meta.setdefault("ran", []).append(f"repo tests in the worktree with the change: pytest {'-n 10 ghedesigner/tests (whole suite, 61 tests)' if full else '-n 4 ' + TESTS[sid[:3]]}")
     json.dump(meta, open(meta_p, "w"), indent=1)
     print(sid, p.returncode, tail, flush=True)
